@@ -333,3 +333,27 @@ def _rounding(spec):
 
 for _op, _sp in (("ceil", "ceil"), ("floor", "floor"), ("trunc", "trunc"), ("round", "round"), ("nearbyint", "nearbyint"), ("rint", "nearbyint")):
     row(_op, "B", "B", types=FLOAT_TYPES, prop="C08")(_rounding(_sp))
+
+
+# ---- C03: reductions of masks ------------------------------------------------------------------------------------------------
+def _maskred(kind):
+    def build(ctx):
+        m = ctx.args[0]
+        ctx.requires += conj(m.wf())
+        t = [m.truth(i) for i in range(ctx.n)]
+        if kind == "any":
+            e = "(__CPROVER_return_value == ((%s) ? 1 : 0))" % " || ".join(t)
+        elif kind == "all":
+            e = "(__CPROVER_return_value == ((%s) ? 1 : 0))" % " && ".join(t)
+        elif kind == "none":
+            e = "(__CPROVER_return_value == ((%s) ? 0 : 1))" % " || ".join(t)
+        elif kind == "count":
+            e = "(__CPROVER_return_value == (%s))" % " + ".join("(u64)(%s ? 1 : 0)" % x for x in t)
+        else:  # mask
+            e = "(__CPROVER_return_value == (%s))" % " | ".join("((u64)(%s ? 1 : 0) << %d)" % (x, i) for i, x in enumerate(t))
+        ctx.ensures.append(e)
+    return build
+
+
+for _op in ("any", "all", "none", "count", "mask"):
+    row(_op, "M", "S", prop="C03")(_maskred(_op))
